@@ -77,11 +77,34 @@ def index_inv():
             'implies(has(%s, n), allocated(get(%s, n)) and len(get(%s, n)) >= 1)' % (L, L, L)),
         'buckets_are_distinct_lists': Forall({'n': 'ints()', 'm': 'ints()'},
             'implies(has(%s, n) and has(%s, m) and n != m, get(%s, n) != get(%s, m))' % (L, L, L, L)),
+        'pending_list_is_not_a_bucket': Forall({'n': 'ints()'},
+            'implies(has(%s, n), get(%s, n) != self._pending_free_blocks)' % (L, L)),
         'lengths_sorted': Forall({'i': 'ints()', 'j': 'ints()'},
             'implies(0 <= i and i < j and j < len(%s), at(%s, i) < at(%s, j))' % (LN, LN, LN)),
         'lengths_are_the_bucket_keys': Forall({'n': 'ints()'},
             'iff(has(%s, n), count(%s, n) >= 1) and count(%s, n) <= 1' % (L, LN, LN)),
     }
+
+
+def sp_list_unchanged(ex, lst):
+    """list_unchanged(l): the list object l has the same length, items and multiset view as in the old state
+    (quantifier-free: equality of the object's slices of the field arrays)"""
+    P = ex.path
+    if ex.old_store is None:
+        raise ContractError('list_unchanged() outside a postcondition')
+    conj = []
+    for f in ('len', 'items', 'cnt'):
+        cur = P.read_field(lst, f)
+        saved = P.store
+        P.store = dict(ex.old_store)
+        try:
+            old = P.read_field(lst, f)
+        finally:
+            P.store = saved
+        cs = cur.shape.unpack(cur) if not hasattr(cur, 'comps') else cur.comps
+        os_ = old.shape.unpack(old) if not hasattr(old, 'comps') else old.comps
+        conj += [a == b for a, b in zip(cs, os_)]
+    return SV(BoolS, z3.And(conj))
 
 
 def ext_arena(ex, args, kw):
@@ -92,13 +115,22 @@ def ext_arena(ex, args, kw):
 
 
 def lock_acquire(ex, args, kw):
-    """Lock.acquire(False): succeeds iff the lock is free (ghost: held)"""
+    """Lock.acquire(False): succeeds iff the lock is free (ghost: held); a reentrant lock held by this
+    very thread (the case of a finalizer running inside malloc/free) is acquired again"""
     me = args[0]
     held = ex.path.read_field(me, 'held')
     if ex.path.decide(held.e):
+        if ex.path.decide(ex.path.read_field(me, 'reentrant').e):
+            return mk_bool(True)
         return mk_bool(False)
     ex.path.write_field(me, 'held', mk_bool(True))
     return mk_bool(True)
+
+
+def lock_enter(ex, args, kw):
+    """`with lock:` -- blocks until the lock is free (a held non-reentrant lock is released by its holder first)"""
+    ex.path.write_field(args[0], 'held', mk_bool(True))
+    return SNone()
 
 
 def lock_release(ex, args, kw):
@@ -137,14 +169,28 @@ FREE_USES = {
     'no_empty_bucket': ['no_empty_bucket', 'buckets_are_distinct_lists', '*ext'],
     'buckets_are_distinct_lists': ['buckets_are_distinct_lists', 'no_empty_bucket'],
     'lengths_sorted': ['lengths_sorted', '*ext'],
+    'pending_list_is_not_a_bucket': ['pending_list_is_not_a_bucket'],
+    'pending_list_untouched': ['pending_list_is_not_a_bucket', 'pending_list_untouched'],
     'lengths_are_the_bucket_keys': ['lengths_are_the_bucket_keys', 'no_empty_bucket', '*ext'],
 }
 
 
 def build(w):
-    w.cls('g', fields={'arenas_mapped': IntS})
+    w.cls('g', fields={'arenas_mapped': IntS, 'pid': IntS})
+    w.spec_funcs['list_unchanged'] = sp_list_unchanged
     w.cls('Arena', fields={'size': IntS})
-    w.cls('Lock', fields={'held': BoolS}, methods={'acquire': lock_acquire, 'release': lock_release})
+    w.cls('Lock', fields={'held': BoolS, 'reentrant': BoolS},
+          methods={'acquire': lock_acquire, 'release': lock_release, 'with_enter': lock_enter, 'with_exit': lock_release})
+
+    def mk_lock(reentrant):
+        def f(ex, args, kw):
+            l = SRef(ref('Lock'), ex.path.new_id('Lock'))
+            ex.path.write_field(l, 'held', mk_bool(False))
+            ex.path.write_field(l, 'reentrant', mk_bool(reentrant))
+            return l
+        return f
+    w.externals.update({'threading.Lock': mk_lock(False), 'threading.RLock': mk_lock(True),
+                        'os.getpid': lambda ex, a, k: gget(ex, 'pid')})
     w.cls('Heap', module='heap', fields={
         '_lastpid': IntS, '_lock': ref('Lock'), '_size': IntS,
         '_lengths': list_of(IntS), '_len_to_seq': dict_of(IntS, list_of(BLK)),
@@ -153,7 +199,7 @@ def build(w):
         '_pending_free_blocks': list_of(BLK),
     })
     H = ref('Heap')
-    wf = {'containers_allocated': ' and '.join('allocated(%s)' % x for x in (S, E, A, L, LN)) +
+    wf = {'containers_allocated': ' and '.join('allocated(%s)' % x for x in (S, E, A, L, LN, 'self._pending_free_blocks')) +
           ' and %s != %s' % (S, E)}
     inv = dict(geometry_inv(), **wf)
     inv.update(index_inv())
@@ -168,6 +214,7 @@ def build(w):
         modifies=[S + '.*', E + '.*', L + '.*', LN + '.*', 'list<tup[ref[Arena],int,int]>.*'],
         returns=tup(IntS, IntS),
         ensures=dict(dict(geometry_inv(), **index_inv()),
+                     pending_list_untouched='list_unchanged(self._pending_free_blocks)',
                      returns_extent='result[0] == block[1] and result[1] == block[2]',
                      removed_from_both_indexes='not has(%s, (block[0], block[1])) and not has(%s, (block[0], block[2]))' % (S, E),
                      nothing_else_removed='only_key_changed(%s, (block[0], block[1])) and only_key_changed(%s, (block[0], block[2]))' % (S, E)),
@@ -245,18 +292,19 @@ def build(w):
         ],
         requires=free_req,
         modifies=[S + '.*', E + '.*', L + '.*', LN + '.*', 'list<tup[ref[Arena],int,int]>.*'],
+        lets={'mstart': 'ite(old(has(%s, (block[0], block[1]))), old(get(%s, (block[0], block[1])))[1], block[1])' % (E, E),
+              'mstop': 'ite(old(has(%s, (block[0], block[2]))), old(get(%s, (block[0], block[2])))[2], block[2])' % (S, S)},
+        # (the local variables start / stop at exit are the merged extent)
+        local_ensures={'merged_with_exactly_the_adjacent_free_blocks': 'final.start == mstart and final.stop == mstop'},
         ensures=dict(dict(geometry_inv(), **index_inv()),
-                     merged_block_is_free='has(%s, (block[0], final.start)) and get(%s, (block[0], final.start)) == '
-                                          '(block[0], final.start, final.stop)' % (S, S),
-                     covers_the_freed_block='final.start <= block[1] and block[2] <= final.stop',
-                     # nothing is lost and nothing else is taken: the new free extent is exactly the freed block plus
-                     # the free blocks that were adjacent to it
-                     merged_with_exactly_the_adjacent_free_blocks=
-                         'final.start == ite(old(has(%s, (block[0], block[1]))), old(get(%s, (block[0], block[1])))[1], block[1]) and '
-                         'final.stop == ite(old(has(%s, (block[0], block[2]))), old(get(%s, (block[0], block[2])))[2], block[2])'
-                         % (E, E, S, S),
+                     # nothing is lost and nothing else is taken: the new free extent [mstart, mstop) is exactly the freed
+                     # block plus the free blocks that were adjacent to it
+                     pending_list_untouched='list_unchanged(self._pending_free_blocks)',
+                     merged_block_is_free='has(%s, (block[0], mstart)) and get(%s, (block[0], mstart)) == '
+                                          '(block[0], mstart, mstop)' % (S, S),
+                     covers_the_freed_block='mstart <= block[1] and block[2] <= mstop',
                      other_free_blocks_untouched=Forall(AX,
-                         'implies(not (a == block[0] and final.start <= x and x < final.stop), '
+                         'implies(not (a == block[0] and mstart <= x and x < mstop), '
                          'has(%s, (a, x)) == old(has(%s, (a, x))) and '
                          'implies(has(%s, (a, x)), %s == old(%s)))' % (S, S, S, SB, SB)),
                      allocated_set_untouched='only_key_changed(%s)' % A),
@@ -281,6 +329,7 @@ def build(w):
                   'self._arenas.*', 'g.arenas_mapped'],
         returns=BLK,
         ensures=dict(dict(geometry_inv(), **index_inv()),
+                     pending_list_untouched='list_unchanged(self._pending_free_blocks)',
                      large_enough='result[2] - result[1] >= size',
                      well_placed='allocated(result[0]) and 0 <= result[1] and result[1] < result[2] and '
                                  'result[2] <= result[0].size and result[1] % 8 == 0 and result[2] % 8 == 0',
@@ -302,7 +351,26 @@ def build(w):
                      other_free_blocks_untouched=Forall(AX,
                          'implies(not (a == result[0] and x == result[1]), has(%s, (a, x)) == old(has(%s, (a, x))))' % (S, S))),
     )
-    return [absorb, free_, malloc_]
+    PD = 'self._pending_free_blocks'
+    pending_wf = Forall(AXY, 'implies(count(%s, (a, x, y)) >= 1, has(%s, (a, x, y)) and count(%s, (a, x, y)) <= 1)' % (PD, A, PD))
+    init = Contract(
+        'heap.Heap.__init__', prop=PROP, params={'self': H, 'size': IntS},
+        modifies=['self.*'],
+        ensures=dict(dict(geometry_inv(), **index_inv()),
+                     starts_empty='len(%s) == 0 and len(%s) == 0 and len(%s) == 0 and self._size == size' % (S, A, PD),
+                     # free() tells "called from a finalizer inside malloc/free of this thread" by failing to take the lock
+                     lock_is_free_and_not_reentrant='not self._lock.held and not self._lock.reentrant'),
+    )
+    drain = Contract(
+        'heap.Heap._free_pending_blocks', prop=PROP, params={'self': H},
+        requires=dict(inv, pending='allocated(%s) and len(%s) >= 0' % (PD, PD), pending_blocks_are_allocated=pending_wf),
+        modifies=[S + '.*', E + '.*', L + '.*', LN + '.*', 'list<tup[ref[Arena],int,int]>.*', A + '.*'],
+        loops={0: {'inv': dict(dict(geometry_inv(), **index_inv()), pending_blocks_are_allocated=pending_wf,
+                               pending='len(%s) >= 0' % PD),
+                   'modifies': [S + '.*', E + '.*', L + '.*', LN + '.*', 'list<tup[ref[Arena],int,int]>.*', A + '.*']}},
+        ensures=dict(dict(geometry_inv(), **index_inv()), nothing_left_pending='len(%s) == 0' % PD),
+    )
+    return [absorb, free_, malloc_, init, drain]
 
 
 def ext_insort(ex, args, kw):
